@@ -78,7 +78,7 @@ func c14Pair(rc *simrt.RunCtx, n uint8, m int, faults bool, tk tknobs) (*connPai
 
 // c14Transfer sends the given messages client->server and compares the Recv
 // results one by one with the messages whose Send returned nil.
-func c14Transfer(rc *simrt.RunCtx, cli, srv *GoBackNConn, msgs [][]byte, what string, faults bool) bool {
+func c14Transfer(rc *simrt.RunCtx, cli, srv *GoBackNConn, msgs [][]byte, what string, faults bool, readerLag func() time.Duration) bool {
 	var mu sync.Mutex
 	accepted := 0
 	sdone := make(chan struct{})
@@ -98,6 +98,11 @@ func c14Transfer(rc *simrt.RunCtx, cli, srv *GoBackNConn, msgs [][]byte, what st
 		srv.SetRecvTimeout(time.Hour)
 	}
 	for i := 0; i < len(msgs); i++ {
+		if readerLag != nil {
+			if d := readerLag(); d > 0 {
+				time.Sleep(d)
+			}
+		}
 		b, err := srv.Recv()
 		if err != nil {
 			mu.Lock()
@@ -156,7 +161,7 @@ func c14Exhaustive(rc *simrt.RunCtx) {
 		}
 	}
 	rc.Sample("M=%d N=%d lengths 0..%d: %d singles + %d ordered pairs = %d messages", m, n, maxL, maxL+1, (maxL+1)*(maxL+1), len(msgs))
-	if c14Transfer(rc, cli, srv, msgs, fmt.Sprintf("M=%d N=%d", m, n), false) {
+	if c14Transfer(rc, cli, srv, msgs, fmt.Sprintf("M=%d N=%d", m, n), false, nil) {
 		rc.ProbeN("c14.messages", len(msgs))
 	}
 	rc.Fault(fmt.Sprintf("enumerated-M=%d-N=%d", m, n))
@@ -227,7 +232,28 @@ func c14Random(rc *simrt.RunCtx) {
 		msgs = append(msgs, c14Payload(i, l))
 	}
 	rc.Sample("M=%d N=%d faults=%v %d messages, first lengths %v", m, n, faults, len(msgs), lens(msgs, 6))
-	c14Transfer(rc, cli, srv, msgs, fmt.Sprintf("M=%d N=%d faults=%v", m, n, faults), faults)
+	// a reader that lags: more than a window of chunks waits for it, for
+	// longer than the resend timeout
+	var lag func() time.Duration
+	readerMode := rc.Pick(4, "wl.reader")
+	switch readerMode {
+	case 1:
+		lag = func() time.Duration {
+			if simrt.Pm(150, "wl.rlag") {
+				return time.Duration(1+simrt.Choose(60, "wl.rlaglen")) * time.Millisecond
+			}
+			return 0
+		}
+	case 2:
+		lag = func() time.Duration {
+			if simrt.Pm(300, "wl.rlag") {
+				return tk.resend * time.Duration(1+simrt.Choose(12, "wl.rlagx"))
+			}
+			return 0
+		}
+	}
+	rc.Knob("reader", readerMode)
+	c14Transfer(rc, cli, srv, msgs, fmt.Sprintf("M=%d N=%d faults=%v", m, n, faults), faults, lag)
 }
 
 func lens(msgs [][]byte, k int) []int {
